@@ -2,6 +2,7 @@
 import importlib
 
 MODULES = [
+    "contracts.lem_call",
     "contracts.lem_time",
     "contracts.lem_guard",
     "contracts.lem_array",
